@@ -143,6 +143,29 @@ func rayContract(c model3d.Collider, r ray3, what string) ([]hit3, error) {
 			return nil, fmt.Errorf("%s: collision normal %v has length %g, not 1 (ray %+v)", what, h.normal, l, r)
 		}
 	}
+	// queries are pure: a callback may cast another ray at the same collider (a shadow or secondary ray) and the
+	// enumeration in progress still reports the collisions of its own ray
+	if n > 0 {
+		other := &model3d.Ray{Origin: ray.Origin.Add(ray.Direction.Scale(0.31)).Add(model3d.XYZ(0.013, -0.007, 0.011).Scale(ray.Direction.Norm())), Direction: model3d.XYZ(ray.Direction.Z, -ray.Direction.X, ray.Direction.Y).Scale(-1.3)}
+		var again []hit3
+		n3 := c.RayCollisions(ray, func(rc model3d.RayCollision) {
+			again = append(again, hit3{rc.Scale, m3.V3(rc.Normal)})
+			c.RayCollisions(other, func(model3d.RayCollision) {})
+			c.FirstRayCollision(other)
+		})
+		same := n3 == n && len(again) == len(hits)
+		if same && !strings.HasPrefix(what, "SolidCollider") {
+			a, b := append([]hit3(nil), again...), append([]hit3(nil), hits...)
+			sort.Slice(a, func(i, j int) bool { return a[i].scale < a[j].scale })
+			sort.Slice(b, func(i, j int) bool { return b[i].scale < b[j].scale })
+			for i := range a {
+				same = same && a[i].scale == b[i].scale
+			}
+		}
+		if !same {
+			return nil, fmt.Errorf("%s: %d collisions %v when enumerated alone, %d collisions %v when the callback casts another ray at the same collider (ray %+v)", what, n, hits, n3, again, r)
+		}
+	}
 	sort.Slice(hits, func(i, j int) bool { return hits[i].scale < hits[j].scale })
 	first, ok := c.FirstRayCollision(ray)
 	if ok != (n > 0) {
